@@ -7,6 +7,7 @@ package main
 import (
 	"bytes"
 	"crypto/sha256"
+	"encoding/json"
 	"fmt"
 	"go/ast"
 	"go/parser"
@@ -15,6 +16,7 @@ import (
 	"os"
 	"os/exec"
 	"path/filepath"
+	"regexp"
 	"sort"
 	"strings"
 
@@ -95,6 +97,7 @@ type normFile struct {
 	Path    string
 	Imports []string
 	Decls   map[string]string
+	Raw     string // the file as emitted / as checked in
 }
 
 func declKey(d ast.Decl) string {
@@ -131,7 +134,7 @@ func normalise(dir, path, src string) (*normFile, error) {
 		return nil, err
 	}
 	im := importsOf(f)
-	nf := &normFile{Path: path, Decls: map[string]string{}}
+	nf := &normFile{Path: path, Decls: map[string]string{}, Raw: src}
 	used := map[string]bool{}
 	ast.Inspect(f, func(n ast.Node) bool {
 		if sel, ok := n.(*ast.SelectorExpr); ok {
@@ -205,9 +208,66 @@ func diffNorm(gen, have *normFile) string {
 	return strings.ReplaceAll(strings.Join(ds, ";"), " ", "_")
 }
 
+// compileRegenerated builds the package of a generator output that differs from the checked-in file with
+// the output put in the file's place (go build -overlay; nothing is written into the tree). Returns the
+// compiler's complaint, "" if it builds.
+func compileRegenerated(root, tmp string, g, h *normFile) string {
+	target := filepath.Join(root, g.Path)
+	replace := map[string]string{}
+	if h != nil {
+		target = filepath.Join(root, h.Path)
+	}
+	gen := filepath.Join(tmp, "regen_"+strings.ReplaceAll(g.Path, "/", "_"))
+	if err := os.WriteFile(gen, []byte(g.Raw), 0o644); err != nil {
+		return ""
+	}
+	replace[target] = gen
+	ov, _ := json.Marshal(map[string]any{"Replace": replace})
+	ovPath := gen + ".overlay.json"
+	if err := os.WriteFile(ovPath, ov, 0o644); err != nil {
+		return ""
+	}
+	cmd := exec.Command("go", "build", "-overlay", ovPath, "./"+filepath.Dir(g.Path))
+	cmd.Dir = root
+	cmd.Env = goEnv()
+	out, err := cmd.CombinedOutput()
+	if err == nil {
+		return ""
+	}
+	msg := strings.TrimSpace(regexp.MustCompile(`\S*`+regexp.QuoteMeta(filepath.Base(gen))).ReplaceAllString(string(out), g.Path))
+	if len(msg) > 600 {
+		msg = msg[:600] + "..."
+	}
+	if msg == "" {
+		msg = err.Error()
+	}
+	return msg
+}
+
+func checkRegenerated(mon *lib.Monitor, root, tmp, key string, g, h *normFile) {
+	in := map[string]any{"kind": "regen", "key": key, "generated": g.Path}
+	diff := "no checked-in file"
+	if h != nil {
+		in["file"] = h.Path
+		diff = diffNorm(g, h)
+	}
+	mon.Eval(key, true, in)
+	mon.Count("compiled-in-overlay")
+	if msg := compileRegenerated(root, tmp, g, h); msg != "" {
+		gen := "protoc-gen-router"
+		if strings.HasSuffix(g.Path, "_wrap.pb.go") {
+			gen = "protoc-gen-wrapper"
+		}
+		mon.Violate("C12/"+gen+"/"+filepath.Base(filepath.Dir(g.Path))+"/"+filepath.Base(g.Path)+"/regenerated-does-not-compile",
+			"what the generator produces from the current API descriptors must build: this output differs from the checked-in file ("+diff+") and does not compile, so the service's RPCs can no longer be routed by generated code",
+			in, "the regenerated file compiles in place of the checked-in one", msg)
+	}
+}
+
 func runRegen(f lib.Flags, res *lib.Result) {
 	tie := res.Tie("regeneration", "K3", "cmd/protoc-gen-router and cmd/protoc-gen-wrapper are built from the working tree and re-run on the compiled descriptors of every proto file named by a pkg/trait/*/gen.go go:generate line; each emitted file is compared with the checked-in *_router.pb.go / *_wrap.pb.go declaring the same type as a normalised AST (declarations and bodies, set of imported packages; comments, layout, import aliases/grouping and file names ignored); one evaluation per generated or checked-in file")
 	tie.Exhaustive = true
+	mon := res.Monitor("regenerated-output", "every generator output that differs from (or has no) checked-in file is compiled in the file's place (go build -overlay, nothing written into the tree): what the generators produce from the current API descriptors must be a router / wrapper that builds, or the service's RPCs can no longer be routed by generated code; an output with the same declarations as the checked-in file needs no build of its own (the harness is compiled against that file and drives it); one evaluation per generated file")
 	root := lib.RepoRoot()
 	files, err := protoFilesToGenerate(root)
 	if err != nil {
@@ -282,15 +342,22 @@ func runRegen(f lib.Flags, res *lib.Result) {
 		case h == nil:
 			tie.Record(k, true, map[string]any{"generated": g.Path}, g.digest(), "not-checked-in")
 			tie.Count("generated-only")
+			checkRegenerated(mon, root, tmp, k, g, nil)
 		default:
 			code := h.digest()
 			if code != g.digest() {
 				code += " " + diffNorm(g, h)
 				tie.Count("differs")
-			} else if filepath.Base(g.Path) != filepath.Base(h.Path) {
-				tie.Count("same-ast-other-file-name")
+				checkRegenerated(mon, root, tmp, k, g, h)
 			} else {
-				tie.Count("identical-ast")
+				if filepath.Base(g.Path) != filepath.Base(h.Path) {
+					tie.Count("same-ast-other-file-name")
+				} else {
+					tie.Count("identical-ast")
+				}
+				// same declarations as the checked-in file, which this harness is compiled against and drives
+				mon.Eval(k, true, nil)
+				mon.Count("same-as-the-compiled-checked-in-file")
 			}
 			tie.Record(k, true, map[string]any{"file": h.Path, "generated": g.Path}, g.digest(), code)
 		}
